@@ -130,7 +130,10 @@ fn run_seeded<R: RngCore + SeedableRng + Clone>(
             R::seed_from_u64(x)
         }
         _ => {
-            let mut src = Src { pos: 0, zeros: p.below(3) * seed_len as u64, salt: p.u() };
+            // leading all-zero blocks: a few, or (rarely) a very long run — a redraw done by
+            // recursion instead of a loop needs a stack frame per block in unoptimised builds
+            let zeros = if p.below(60) == 0 { 450_000 + p.below(1000) } else { p.below(3) };
+            let mut src = Src { pos: 0, zeros: zeros * seed_len as u64, salt: p.u() };
             R::from_rng(&mut src)
         }
     };
@@ -171,6 +174,15 @@ fn jitter_script(p: &mut P, n: usize) -> Vec<u64> {
     const HUGE: [u64; 8] = [0x7fff_ffff, 0x8000_0000, 0x8000_0001, 0xffff_ffff, 0x1_0000_0000, 0x1_0000_0001, 1 << 63, u64::MAX];
     let class = p.below(8);
     let mut t: u64 = match p.below(3) { 0 => 1, 1 => p.u(), _ => 1_000_000_000 };
+    // rarely: a healthy start, then the clock freezes / ticks evenly for more than 2^16
+    // measurements (narrow counters of consecutive stuck results), then recovers
+    if p.below(60) == 0 {
+        let mut v = Vec::new();
+        for _ in 0..20 { t = t.wrapping_add(1 + p.below(1 << 12)); v.push(t); }
+        let step = if p.below(2) == 0 { 0 } else { 1 + p.below(500) };
+        for _ in 0..(3 * 65_540 + 9) { t = t.wrapping_add(step); v.push(t); }
+        return v;
+    }
     if class == 5 { t = u64::MAX - p.below(4096); }
     let k = 4 + p.below(27);
     let mut v = Vec::with_capacity(n);
